@@ -80,7 +80,7 @@ def _gen_one(rng):
     if stream == "boundary" and rng.random() < 0.15:
         recs[rng.randrange(n)] = {"kind": "untyped", "cols": []}     # a record with no column
     if stream == "adv" and rng.random() < 0.3:
-        recs[rng.randrange(n)] = {"kind": "plain", "c": rng.choice([None, 7, -1, "7", 10 ** 30]),
+        recs[rng.randrange(n)] = {"kind": "plain", "c": rng.choice([None, 0, "", "0", 7, -1, "7", 10 ** 30]),
                                   "s": rng.choice([None, 0, -5, 2 ** 70, "2_0", " 3 "]),
                                   "e": rng.choice([None, 5, "x", "+4"])}
         if order == "B" and rng.random() < 0.7:
@@ -112,6 +112,13 @@ def corpus():
                _u(tumor="T1", chrom="chr10", start="10", end="10"),
                _u(tumor="T1", normal="N1", chrom="chr10", start="10")]),
         _case("corpus", "C", ["chr1"], [_u(chrom="chr2", start="1", end="1"), _u(chrom="chr1", start="1", end="1")]),
+        # falsy values: typed chromosome "0" is int 0 (truthiness instead of `is not None` leaves it an int)
+        _case("corpus", "C", None, [_t(chrom="0", start="5", end="5"), _t(chrom="X", start="5", end="5"), _u(chrom="0", start="0", end="0")]),
+        _case("corpus", "C", ["1", "0"], [_t(chrom="0", start="5", end="5"), _t(chrom="1", start="5", end="5")]),
+        _case("corpus", "B", [1, 0], [_u(tumor="", normal="", chrom="0", start="0", end="0"), _u(tumor="T1", chrom="", start="0"),
+                                       _t(tumor="T1", normal="", chrom="0", start="1", end="1")]),
+        _case("corpus", "C", None, [{"kind": "plain", "c": 0, "s": 0, "e": 0}, {"kind": "plain", "c": "", "s": "0", "e": None},
+                                     {"kind": "plain", "c": "0", "s": None, "e": 0}]),
         _case("corpus", "C", None, [{"kind": "plain", "c": 1, "s": "9", "e": None}, {"kind": "plain", "c": "1", "s": 10, "e": 3},
                                      {"kind": "untyped", "cols": []}]),
     ]
